@@ -13,16 +13,17 @@ func Values(c Combo) []string {
 		return []string{"x", "yz-0123456789", ""}
 	case "add", "min", "max":
 		switch c.VT {
+		// a value and its opposite: sums reach exactly zero (the neutral element is where shortcuts go wrong)
 		case "int64", "bigint":
-			return []string{"3", "-2", "10"}
+			return []string{"3", "-3", "10"}
 		}
-		return []string{"0.5", "-2", "1.25"}
+		return []string{"0.5", "-0.5", "1.25"}
 	case "set_sum":
 		switch c.VT {
 		case "int64", "bigint":
-			return []string{"set:3", "sum:-2", "sum:10"}
+			return []string{"set:3", "sum:-3", "sum:10"}
 		}
-		return []string{"set:0.5", "sum:-2", "sum:1.25"}
+		return []string{"set:0.5", "sum:-0.5", "sum:1.25"}
 	}
 	panic("no alphabet for " + c.String())
 }
